@@ -235,7 +235,7 @@ Ranges(b) == ProperRanges(b) \cup (IF EdgeBounds THEN EdgeRanges(b) ELSE {})
 Step ==
   \/ \E k \in Keys : Get(k) \/ Del(k) \/ \E v \in Vals : Put(k, v)
   \/ \E b \in {TB, 1, 2} : \E r \in Ranges(b) : \E lim \in Limits : Select(b, r[1], r[2], lim, LAMBDA nd : {{}})
-  \/ NU > 0 /\ \E amt \in 0..(UAmt + 1) : Transfer(amt)
+  \/ NU > 0 /\ \E amt \in 1..(UAmt + 1) : Transfer(amt)     \* a zero amount is refused by the code; no property speaks about it
 Next == (mode = "idle" /\ \E f \in XmStates : Start(f, NU)) \/ Step
 Spec == Init /\ [][Next]_vars
 
